@@ -1,6 +1,7 @@
 import KoordVerif.Common.Proto
 import KoordVerif.Model.C16
 import KoordVerif.Model.C16Arb
+import KoordVerif.Model.C16Glue
 import KoordVerif.Proofs.C16ExtArb
 /-
 Driver for C16.  Ops (one history per case; every token an integer, -1 = nil pointer):
@@ -34,6 +35,14 @@ Driver for C16.  Ops (one history per case; every token an integer, -1 = nil poi
   phase <id> <phase>                    status change + handler.Update     -> state block
   round <nf> <failIds>* <no> <order>*   doOnceArbitrate                    -> wf <hypothesis WF of round_inv on the state before> + state block
   state block: one line per job by id:  j <id> <phase> <passedAnn> <arbitrated> <waiting>
+  -- events through the real arbitrationHandler (Model/C16Glue.lean `handle`)
+  upd <n> <jid>*                        informer Update events, ObjectNew = the object in the API -> state block
+  roundx <nf> <failIds>* <no> <order>*  doOnceArbitrate with every own write echoed as an Update event before the next
+                                        job is filtered                    -> wf … + state block
+  deljob <id>                           API object deleted + handler.Delete -> state block
+ harness config (pkg/descheduler; cmd/koord-descheduler/app/options.ApplyTo on a generated v1alpha2 file)
+  cfgfile <dry> <node> <ns> <total>     the three caps as written: -1 key absent, -2 null, -3 malformed (-> cfgerr), n >= 0 the integer
+                                        -> caps <node> <ns> <total> (decoded internal config, -1 = nil); then as `cy`
 -/
 namespace KoordVerif.C16
 open KoordVerif.Proto
@@ -83,6 +92,12 @@ def insJob (j : JobA) : List JobA → List JobA
 def stateBlock (st : ArbSt) : List String :=
   (st.jobs.foldl (fun acc j => insJob j acc) []).map fun j =>
     s!"j {j.id} {j.phase} {b2i j.passedAnn} {b2i (st.arbitrated.contains j.id)} {b2i (st.waiting.contains j.id)}"
+
+def capDeclOf (i : Int) : CapDecl := if i = -3 then .malformed else if i = -2 then .null else if i < 0 then .absent else .val i.toNat
+
+def showCap : Option Nat → String
+  | none => "-1"
+  | some n => toString n
 
 def runLine (d : DSt) (line : String) : DSt × List String :=
   match toks line with
@@ -170,14 +185,32 @@ def runLine (d : DSt) (line : String) : DSt × List String :=
         | some pod =>
           let ok := arbFilter d.cfg d.arb pod
           let a := d.arb
-          let a' := if ok then { a with jobs := a.jobs ++ [⟨id.toNat, pod.id, pod.ns, 0, false, pod.id⟩],
-                                        waiting := id.toNat :: a.waiting } else a
+          let a' := if ok then handle { a with jobs := a.jobs ++ [⟨id.toNat, pod.id, pod.ns, 0, false, pod.id⟩] } (.create id.toNat)
+                    else a
           ({ d with arb := a' }, [s!"filter {b2i ok}"])
       | "phase", [id, ph] =>
         let a := d.arb
-        let a' := { a with jobs := setJob a.jobs id.toNat (fun j => { j with phase := ph.toNat }),
-                           arbitrated := if ph ≥ 3 then a.arbitrated.filter (· != id.toNat) else a.arbitrated }
+        let a' := handle { a with jobs := setJob a.jobs id.toNat (fun j => { j with phase := ph.toNat }) } (.update id.toNat ph.toNat)
         ({ d with arb := a' }, stateBlock a')
+      | "upd", n :: ids =>
+        if ids.length ≠ n.toNat then (d, ["bad-op"]) else
+        let a' := echoAll d.arb (ids.map Int.toNat)
+        ({ d with arb := a' }, stateBlock a')
+      | "deljob", [id] =>
+        let a' := deleteJob d.arb id.toNat
+        ({ d with arb := a' }, stateBlock a')
+      | "roundx", nf :: r =>
+        let fails := (r.take nf.toNat).map Int.toNat
+        match r.drop nf.toNat with
+        | no :: order =>
+          if order.length ≠ no.toNat then (d, ["bad-op"]) else
+          let a' := roundEager d.cfg fails d.arb (order.map Int.toNat)
+          ({ d with arb := a' }, s!"wf {b2i (wfB d.arb)}" :: stateBlock a')
+        | [] => (d, ["bad-op"])
+      | "cfgfile", [dry, cn, cs, ct] =>
+        if !configLoads (capDeclOf cn) (capDeclOf cs) (capDeclOf ct) then (d, ["cfgerr"]) else
+        let c := configCaps (capDeclOf cn) (capDeclOf cs) (capDeclOf ct)
+        ({ d with lim := some c, dry := dry ≠ 0, ctr := {} }, [s!"caps {showCap c.node} {showCap c.ns} {showCap c.total}"])
       | "round", nf :: r =>
         let fails := (r.take nf.toNat).map Int.toNat
         match r.drop nf.toNat with
